@@ -83,7 +83,6 @@ Definition norm (n : nameid) : nameid :=
   mkN (normo (nq n)) (normo (spq n)) (normo (fmt n)) (normo (spid n)) (normo (txt n)).
 
 (* the identifiers stored for a user: non-empty elements of the forward entry *)
-Definition nonempty (s : string) : bool := negb (is_empty_str s).
 Definition fw (d : db) (u : string) : list string :=
   match lookup u d with Some v => filter nonempty (elements v) | None => [] end.
 
@@ -152,13 +151,16 @@ Section Ident.
 
   (* ---- well-formed histories: the hypotheses of the property's quantifier.
      user arguments are user names; NameID texts and generated identifier values are not user names;
-     a NameID handed to store has a text; an operation either changes nothing or its identifier
+     a NameID handed to the low-level store() has a text and, when it is of persistent format, is not a
+     second persistent identifier for its (user, requester, qualifier); an operation either changes nothing or its identifier
      value is a proper value that no earlier operation mentioned (what create_id's
      "while _id in self.db" loop is there for). *)
   Definition wf_event (seen : list string) (e : event) : Prop :=
     (forall u, arg_user (e_op e) = Some u -> is_user u = true)
     /\ (forall n t, arg_nid (e_op e) = Some n -> txt n = Some t -> is_user t = false)
-    /\ (forall u n, e_op e = Store u n -> truthy (txt n) = true)
+    /\ (forall u n, e_op e = Store u n ->
+        truthy (txt n) = true
+        /\ (eq_arg (fmt n) (Some NF_PERSISTENT) = true -> match_local_id (e_pre e) u (spq n) (nq n) = Ok None))
     /\ (forall t, In t (cand (e_op e)) -> is_user t = false)
     /\ (same_map (e_post e) (e_pre e)
         \/ forall t, In t (cand (e_op e)) -> t <> "" /\ ~ In t seen).
@@ -179,7 +181,13 @@ Section Ident.
        | Some n => match txt n with Some t => negb (is_user t) | None => true end
        | None => true
        end
-    && match e_op e with Store _ n => truthy (txt n) | _ => true end
+    && match e_op e with
+       | Store u n =>
+           truthy (txt n)
+           && (negb (eq_arg (fmt n) (Some NF_PERSISTENT))
+               || match match_local_id (e_pre e) u (spq n) (nq n) with Ok None => true | _ => false end)
+       | _ => true
+       end
     && forallb (fun t => negb (is_user t)) (cand (e_op e))
     && (forallb (fun t => nonempty t && negb (mem t seen)) (cand (e_op e))
         || db_eqb (e_post e) (e_pre e)).
@@ -390,7 +398,9 @@ Section Ident.
   Definition ident_spec_b (tr : trace) : bool :=
     negb (wf_b tr) || forallb (fun b => b) (ident_spec_parts_b tr).
 
-  (* ------------------------------------------------------------------ finding classes (guards) *)
+  (* ------------------------------------------------------------------ finding classes 2 and 3 of the pinned
+     snapshot (both repaired): the guards under which the OLD code satisfied the property.  Not hypotheses
+     of the theorems about the current code; Corr.cls uses them to recognise a regression. *)
 
   (* class 3 excluded: persistent identifiers are asked for with a requester or a qualifier *)
   Definition qualified_event (e : event) : Prop :=
@@ -422,11 +432,11 @@ Section Ident.
         end
     end.
   Definition single_valued_event (e : event) : Prop :=
-    forall u s q, adds e = Some (u, s, q) -> match_local_id (e_pre e) u s q = Ok None.
+    forall u s q, adds e = Some (u, s, q) -> match_local_id_v0 (e_pre e) u s q = Ok None.
   Definition single_valued (tr : trace) : Prop := Forall single_valued_event tr.
   Definition single_valued_event_b (e : event) : bool :=
     match adds e with
-    | Some (u, s, q) => match match_local_id (e_pre e) u s q with Ok None => true | _ => false end
+    | Some (u, s, q) => match match_local_id_v0 (e_pre e) u s q with Ok None => true | _ => false end
     | None => true
     end.
   Definition single_valued_b (tr : trace) : bool := forallb single_valued_event_b tr.
@@ -464,13 +474,22 @@ Definition eptid_spec_b (obs : list (ecall * string * string)) : bool :=
                 && (negb (String.eqb (c_sp x) (c_sp x')) || negb (String.eqb (euser x) (euser x'))))
           || negb (String.eqb v v')) obs) obs.
 
-(* class 1: two calls of the history share the cache key without having the same arguments *)
+(* class 1 (repaired by 331c8f06): two calls of the history share the OLD cache key sp ++ "__" ++ user
+   without having the same arguments *)
 Definition ecall_eqb (a b : ecall) : bool :=
   String.eqb (c_idp a) (c_idp b) && String.eqb (c_sp a) (c_sp b) && list_eqb String.eqb (c_args a) (c_args b).
 
 Definition key_collision_b (h : list ecall) : bool :=
-  existsb (fun a => existsb (fun b =>
-     String.eqb (eptid_key (c_sp a) (c_args a)) (eptid_key (c_sp b) (c_args b)) && negb (ecall_eqb a b)) h) h.
+  existsb (fun a => existsb (fun b => String.eqb (eptid_key_v0 a) (eptid_key_v0 b) && negb (ecall_eqb a b)) h) h.
 
 Definition no_key_collision (h : list ecall) : Prop :=
-  forall a b, In a h -> In b h -> eptid_key (c_sp a) (c_args a) = eptid_key (c_sp b) (c_args b) -> a = b.
+  forall a b, In a h -> In b h -> eptid_key_v0 a = eptid_key_v0 b -> a = b.
+
+(* class 4 (open): Eptid.make hashes the concatenation of its arguments without separator, so calls
+   that differ in how the same characters are split over user id and extra arguments coincide.  Guard:
+   the calls compared carry the same extra arguments after the user id. *)
+Definition same_extras (h : list ecall) : Prop :=
+  forall x x', In x h -> In x' h -> tl (c_args x) = tl (c_args x').
+
+Definition same_extras_b (h : list ecall) : bool :=
+  forallb (fun x => forallb (fun x' => list_eqb String.eqb (tl (c_args x)) (tl (c_args x'))) h) h.
